@@ -165,12 +165,86 @@ def write_replay(prop, clause, trace, hashseeds, detail, seed, extra=None):
     return path
 
 
+def run_sequence(prop, tier, hashseed, seeds, clause):
+    """Execute run seeds in order in ONE fresh interpreter; the violations
+    of the last run that carry ``clause`` (None: harness error)."""
+    r = one_shot(hashseed, {'cmd': 'seq', 'prop': prop, 'tier': tier,
+                            'seeds': list(seeds)})
+    if 'error' in r:
+        return None, r
+    return [v for v in r['violations'] if v['clause'] == clause], r
+
+
+def sequence_replay(prop, tier, v, rs, histories, log):
+    """Replay file for a violation that needs the history of its interpreter:
+    the (shortened) list of run seeds, executed in order from a fresh start."""
+    h = v.get('hashseed')
+    seeds = (histories or {}).get(h)
+    if not seeds or seeds[-1] != rs:
+        return None
+    hit, r = run_sequence(prop, tier, h, seeds, v['clause'])
+    if not hit:
+        return None
+    log('  needs the history of its interpreter (%d runs); shortening'
+        % len(seeds))
+    t_end = time.time() + 90
+    changed = True
+    while changed and len(seeds) > 1 and time.time() < t_end:
+        changed = False
+        n = len(seeds) - 1
+        for cut in sorted({n, n // 2, n // 4, n // 8, 1} - {0},
+                          reverse=True):
+            cand = seeds[cut:]
+            got, _ = run_sequence(prop, tier, h, cand, v['clause'])
+            if got:
+                seeds, changed = cand, True
+                break
+    k = 0
+    while k < len(seeds) - 1 and len(seeds) <= 12 and time.time() < t_end:
+        cand = seeds[:k] + seeds[k + 1:]
+        got, _ = run_sequence(prop, tier, h, cand, v['clause'])
+        if got:
+            seeds = cand
+        else:
+            k += 1
+    hit, r = run_sequence(prop, tier, h, seeds, v['clause'])
+    if not hit:
+        return None
+    log('  shortest history found: run seeds %s' % seeds)
+    path = write_replay(prop, v['clause'], r.get('trace'), [h],
+                        hit[0]['detail'], '%s-history' % rs,
+                        {'note': 'the last run fails only after the earlier '
+                                 'runs of this list in the same interpreter'})
+    rec = json.load(open(path))
+    rec['sequence'] = {'hashseed': h, 'tier': tier, 'seeds': seeds}
+    with open(path, 'w') as f:
+        json.dump(rec, f, indent=1, sort_keys=True)
+    return path
+
+
 def replay(path, quiet=False):
     import builtins
     print = (lambda *a, **k: None) if quiet else builtins.print
     rec = json.load(open(path))
     prop = rec['property']
     mod = importlib.import_module('dst.props.' + prop)
+    if rec.get('sequence'):
+        sq = rec['sequence']
+        hit, r = run_sequence(prop, sq['tier'], sq['hashseed'], sq['seeds'],
+                              rec['clause'])
+        if hit is None:
+            print('HARNESS-ERROR replay worker: %s\n%s' % (
+                r['error'], r.get('tb', '')))
+            return 2
+        for v in hit[:8]:
+            print('  %s hashseed=%s %s' % (v['clause'], sq['hashseed'],
+                                           v['detail'][:300]))
+        print('history: run seeds %s in one interpreter' % sq['seeds'])
+        if hit:
+            print('VIOLATION property=%s replay=%s' % (prop, path))
+            return 1
+        print('replay: clause %s did not fail' % rec['clause'])
+        return 0
     res = {}
     for h in rec['hashseeds']:
         r = one_shot(h, {'cmd': 'exec', 'prop': prop, 'trace': rec['trace']})
@@ -227,6 +301,7 @@ def explore(prop, tier, seed, budget, fixed_runs, nworkers, quiet=False):
     deadline = t_ready + budget
     max_inflight = len(pool.workers) * 3
     stop_new = False
+    hist = {}     # run seed -> {hashseed: seeds its worker had executed}
     try:
         while True:
             now = time.time()
@@ -292,6 +367,9 @@ def explore(prop, tier, seed, budget, fixed_runs, nworkers, quiet=False):
                             agg.known_hit(ks)
                         else:
                             violations.append((rs, v, trace, want[rs]))
+                            hist.setdefault(rs, {
+                                h: res[h].get('worker_history')
+                                for h in res})
                     if any(classify(mod, trace, v, known) is None
                            for v in vs):
                         if len({x[0] for x in violations}) >= 3:
@@ -342,9 +420,20 @@ def explore(prop, tier, seed, budget, fixed_runs, nworkers, quiet=False):
                     rs, v['clause'], v['detail'][:400]))
                 viols, _ = evalr.evaluate(trace, hs)
                 if not any(x['clause'] == v['clause'] for x in viols):
-                    raise HarnessError(
-                        'violation of %s at seed %d did not reproduce on '
-                        're-execution' % (v['clause'], rs))
+                    # the outcome of this run depended on what its interpreter
+                    # had executed before (state kept by the code under test):
+                    # the worker's history is then part of the schedule
+                    path = sequence_replay(prop, tier, v, rs, hist.get(rs),
+                                           print)
+                    if path is None:
+                        raise HarnessError(
+                            'violation of %s at seed %d did not reproduce on '
+                            're-execution, nor with the history of its '
+                            'interpreter' % (v['clause'], rs))
+                    lines.append('VIOLATION property=%s replay=%s' % (
+                        prop, path))
+                    agg.violations += 1
+                    continue
                 small, steps = shrink(
                     evalr, mod, trace, hs, v['clause'], None, known,
                     time.time() + SHRINK_BUDGET.get(tier, 60),
@@ -374,6 +463,13 @@ def explore(prop, tier, seed, budget, fixed_runs, nworkers, quiet=False):
                                              'note': 'minimised trace did '
                                              'not reproduce in a fresh '
                                              'process'})
+                    if replay(path, quiet=True) != 1:
+                        # not even the generated trace fails from a fresh
+                        # start: the history of the interpreter is needed
+                        sp = sequence_replay(prop, tier, v, rs, hist.get(rs),
+                                             print)
+                        if sp is not None:
+                            path = sp
                 lines.append('VIOLATION property=%s replay=%s' % (prop, path))
                 agg.violations += 1
     finally:
